@@ -644,7 +644,12 @@ def _isotope_substitution(compound, source, target, portion=1):
             atoms[source] *= 1-portion
     else:
         density = compound.density
-    return formula(atoms, density=density)
+    result = formula(atoms, density=density)
+    if density is None:
+        # Unknown stays unknown even if only one kind of atom is left, in
+        # which case formula() would have used the density of that atom.
+        result.density = None
+    return result
 
 
 LENGTH_UNITS = {'nm': 1e-9, 'um': 1e-6, 'mm': 1e-3, 'cm': 1e-2}
